@@ -49,6 +49,15 @@ pub fn scenarios(thorough: bool) -> Vec<Scenario> {
     odd.odd_shapes = true;
     odd.swaps = false;
     v.push(sc("custom02-liquidity-with-near-requests", NetID::Custom02, 0, odd, if thorough { 9 } else { 7 }));
+    // liquidity tokens are coins like any other: moved, moved on within the batch, and claimed twice within the batch (hostile pairs)
+    let mut mv = cfg_liquidity();
+    mv.transfers = true;
+    mv.pairs = true;
+    mv.swaps = false;
+    mv.mints = false;
+    mv.per_denom = 1;
+    mv.max_txs_per_block = 3;
+    v.push(sc("custom02-liquidity-tokens-moved-and-claimed-twice", NetID::Custom02, 0, mv, if thorough { 7 } else { 6 }));
     v.extend(genesis_scenarios(["custom02-genesis-sym-feepool-stake", "custom02-genesis-erg-fees-stakes", "custom02-genesis-huge-mel-feepool"], NetID::Custom02, &cfg_liquidity(), if thorough { 8 } else { 6 }));
     if thorough {
         v.push(sc("testnet-liquidity", NetID::Testnet, 0, cfg_liquidity(), 8));
